@@ -7,6 +7,13 @@ pub type TxId = usize;
 #[derive(PartialEq, Eq, Structural, Clone, Copy, Hash)] pub struct U256(pub u128, pub u128);
 #[derive(PartialEq, Eq, Structural, Clone, Copy)] pub struct Bytecode(pub u64);
 #[derive(PartialEq, Eq, Structural, Clone, Copy)] pub struct AccountInfo { pub balance: U256, pub nonce: u64, pub code_hash: B256, pub code: Option<Bytecode> }
+pub const KECCAK_EMPTY: B256 = B256(0xc5d2);
+impl AccountInfo {
+    pub open spec fn dflt() -> AccountInfo { AccountInfo { balance: U256(0, 0), nonce: 0, code_hash: KECCAK_EMPTY, code: Some(Bytecode(0)) } }
+    pub fn is_empty_code_hash(&self) -> (b: bool) ensures b == (self.code_hash == KECCAK_EMPTY) { self.code_hash == KECCAK_EMPTY }
+    pub fn clone(&self) -> (r: Self) ensures r == *self { *self }
+}
+impl Default for AccountInfo { fn default() -> (r: Self) ensures r == AccountInfo::dflt() { AccountInfo { balance: U256(0, 0), nonce: 0, code_hash: KECCAK_EMPTY, code: Some(Bytecode(0)) } } }
 impl U256 {
     pub const ZERO: U256 = U256(0, 0);
     pub const MAX: U256 = U256(u128::MAX, u128::MAX);
